@@ -24,6 +24,20 @@ PROPS = {
         ],
         "gen": ["EffectOrder", "Consts"],
     },
+    "C10": {
+        "level_text": "Lean 4 theorems over an executable model of the cut resolution shared by branch and handoff and of their effect on the truth log: the recorded cut lies within the source thread as it was; from_seq names the last message at or before it; no selector means the head and the last message; from_message_id names the requested message and covers every run-spawned / run-ended frame that refers to it; both selectors / out of range / unknown id / id of a non-message frame / unknown thread are refused; on success exactly two frames are appended, none on the source (or any other existing) thread, the new thread is [creation@0, lineage@1]; a successful handoff always carries a resolvable summary. Tied to the code by differential correspondence: random source histories x every selector shape x {branch, handoff with markdown / existing / missing / malformed artifact id / neither} through the real ContinuityStore, result and error class compared with the compiled model; plus implementation oracles on the log bytes (previous content is a prefix; source thread frames unchanged; child prefix; recorded artifact exists; a failed call appends nothing).",
+        "level_note": "Lean kernel; the artifact store is an abstract predicate (existence of a blob); UUIDs canonicalised by first occurrence; the creation race (a client addressing the child between its creation frame and its lineage frame) is the subject of C01, not of this sequential model.",
+        "technique": "Lean 4 proof (decision logic stated outright; list induction) + differential correspondence check",
+        "design_ref": "§5 C10",
+        "trusted_base": COMMON_TB + [
+            "modelled, not verified: replay_events returns the thread's frames in log order (C03/C04)",
+        ],
+        "assumptions": [
+            "frames of the source thread are numbered 0,1,2,... (C01) for the range and last-message statements",
+            "no I/O error while writing the handoff bundle (a failure after the child's creation frame would leave a one-frame thread)",
+        ],
+        "gen": [],
+    },
     "C12": {
         "level_text": "Lean 4 theorems over an executable model of the patch engine (byte-level parser, hunk application, file system with directories, undo list and revert): exactness on success for every workspace state and operation list (result = in-order fold of the operation semantics; changed files = sorted, de-duplicated named files), parser totality and path confinement, hunk locality; all-or-nothing on failure via the undo invariant (theorem `atomic`, see evidence for whether it is included in this build). Tied to the code by differential correspondence: the same (workspace, patch document) pairs run through rip-workspace in a scratch directory and through the compiled model, full tree (files, bytes, directories), result and error class compared; plus implementation oracles for all-or-nothing and changed-files.",
         "level_note": "Lean kernel; model hand-written, validated by the correspondence check; std::fs semantics (exists/read/write/create_dir_all/remove_file/rename on files vs directories, trailing-slash spellings) are modelled, not verified; symlinks, I/O errors during rollback and concurrent external writers are outside the model.",
